@@ -98,3 +98,20 @@ package conversion
 //@   pure
 //@   allocates
 //@   ensures len(result) == len(p0)/4
+
+// ---- the unsafe fast paths (little-endian machines) ----
+// Reinterpreting memory is outside the verifier's memory model; with unsafe.Slice abstracted to
+// "an arbitrary slice of the given length" the length laws are still proved for all inputs: the
+// encoding of n elements is 4n bytes (not the capacity of the backing array), the decoding of b
+// bytes is len(b)/4 elements. The contents are covered by the bounded stand-in of the thorough tier.
+//@ func float32ToBytesRaw
+//@   property C19 C04 C08
+//@   safety -overflow +unsafe-abstract
+//@   requires len(f) >= 1 && len(f) <= 1073741824
+//@   ensures len(result) == len(f) * 4
+
+//@ func bytesToFloat32Raw
+//@   property C19 C04 C08
+//@   safety -overflow +unsafe-abstract
+//@   requires len(b) >= 4
+//@   ensures len(result) == len(b) / 4
